@@ -31,10 +31,10 @@ OpSet ==
 \* the allocator's live set according to the model's own events
 LiveBlocks(s) == Len(s.al) + Cardinality({d \in 1..Len(s.al) : s.al[d].mem}) + Cardinality({u \in UP : s.up[u].has})
 Tgt(pre, m, f) == [x \in DOMAIN f |-> IF f[x] > Len(pre.al) THEN NEWB ELSE f[x]]
-Next == \E o \in OpSet :
-           LET r == Apply(st, o) IN
+Step(o) == LET r == Apply(st, o) IN
            /\ st' = Canon(r.m.s)
            /\ ok' = Contract(o, st, Canon(r.m.s), LiveBlocks(Canon(r.m.s)), Tgt(st, r.m, r.m.s.sp), Tgt(st, r.m, r.m.s.wp), r.m.ev, r.ret)
+Next == \E o \in OpSet : Step(o)
 Spec == Init /\ [][Next]_vars
 InvOK == ok
 InvCounts == CountsOK(st)
